@@ -15,7 +15,7 @@ QUERY_OK = ["T_HOO", "HCT", "VHCT", "Zooming", "POO"]
 def run(tier):
     chk = F.Check("C15", tier)
     # time labels t0 + i, t0 in {0, 1, 17}
-    base = PC2.base_cfgs(tier, 3200000, TIME_FREE, 2 if tier == "quick" else 10)
+    base = PC2.base_cfgs(tier, 3200000, TIME_FREE, 2 if tier == "quick" else 25)
     jobs = []
     for c in base:
         for t0 in (1, 0, 17):
@@ -30,14 +30,16 @@ def run(tier):
     chk.validate("Trace_Pair.tla", "Trace_Pair.cfg", pairs, "labels", own=["pair."], nontrivial=lambda p: len(p["a"]) > 40)
     # recommendation queries: schedules from TLC (exhaustive for 4 rounds with up to 2 queries per gap, simulated for long runs)
     scheds = PC2.schedules(chk, "query", 4, 2)
-    long = PC2.schedules(chk, "query", 40, 2, simulate="num=%d" % (20 if tier == "quick" else 120), label="query_long")
+    if tier != "quick":
+        scheds += PC2.schedules(chk, "query", 5, 2)
+    long = PC2.schedules(chk, "query", 40, 2, simulate="num=%d" % (20 if tier == "quick" else 300), label="query_long")
     rnd = random.Random(C.seed() + 23)
     rnd.shuffle(scheds)
     qbase = PC2.base_cfgs(tier, 3300000, QUERY_OK, 3 if tier == "quick" else 12, seedoff=2, n_choices=(100,))
     jobs, plan = [], []
     k = 0
     every = ["A", "A"] + ["A", "A", "Q"] * 39          # a query after every round from the second on
-    plan_sc = [(sc, None) for sc in scheds[: (30 if tier == "quick" else 81)] + long] + [(every, c) for c in qbase]
+    plan_sc = [(sc, None) for sc in scheds[: (30 if tier == "quick" else 400)] + long] + [(every, c) for c in qbase]
     for sc, fixed in plan_sc:
         c = fixed if fixed is not None else rnd.choice(qbase)
         k += 2
